@@ -323,6 +323,9 @@ executeProcess:
 			if err == nil {
 				p.State.Set(state.Executing)
 				p.ExitNum, err = fork.Execute(fn.Block)
+			} else {
+				// the fork has registered a FID but will never be executed
+				GlobalFIDs.Deregister(fork.Id)
 			}
 		}
 
